@@ -10,10 +10,12 @@ so parsing and `sort_records` are inside the tie):
   geneseq txseq orf sec                        sequences, ORF start/end, selenocysteine
   exonic upend downstart findexon findintron   helper look-ups (internal streams)
   cache                                        access histories against the pointer caches
-  gtfparse0 gtfwrite gtfparse1 gtfrt gtfwf gtfwf1 gtfline   the GTF codec model (Model/Gtf.lean):
+  gtfparse0 gtfwrite gtfparse1 gtfrt gtfwf gtfwf1 gtfclosed gtfline   the GTF codec model (Model/Gtf.lean):
       real dump_gtf vs parseGtf on the generated text and on the text GtfIO.write produced, real
       GtfIO.write vs writeGtf line by line, real write->parse vs the Lean composition, the
-      well-formedness predicates of the theorems evaluated on the real models, fuzzed single
+      well-formedness predicates of the theorems evaluated on the real models, closure of the round
+      trip (gtfclosed: wf / ordered / stable of the reloaded annotation, second round trip, written
+      text a fixed point; model reload decided by the driver vs the real reloaded objects), fuzzed single
       lines through line_to_seq_feature, hand-made edge annotations
 Direct predicates on the real outputs (no model involved):
   inverse maps, pointwise sequences, ORF start vs CDS, on-disk == fully parsed for every key
@@ -920,10 +922,15 @@ def cache_stream(ctx, a, L, rng, case_id, S, viol):
 
 # ------------------------------------------------------------------ GTF codec (Model/Gtf.lean)
 SEP = '\x1f'          # stands for the tab inside a protocol argument
-GTF_STREAMS = ['gtfparse0', 'gtfwrite', 'gtfparse1', 'gtfrt', 'gtfrtn', 'gtfwf', 'gtfwf1', 'gtfline']
+GTF_STREAMS = ['gtfparse0', 'gtfwrite', 'gtfparse1', 'gtfrt', 'gtfrtn', 'gtfwf', 'gtfwf1', 'gtfclosed',
+               'gtfline']
 GTF_WHAT = {
     'gtfrtn': 'GtfIO.write -> dump_gtf differs from the proved round trip of the model '
              '(Props.C11.gtf_roundtrip): a model changes when written and parsed back',
+    'gtfclosed': 'closure of the GTF round trip (Props.C11.gtf_roundtrip_closed_partial / _closed_of_tx / '
+                 '_idempotent_partial): the '
+                 'annotation reloaded by GtfIO.write -> dump_gtf is not again ordered / stable / a fixed '
+                 'point of a second round trip, where the proved model says it is',
 }
 
 
@@ -1052,6 +1059,43 @@ def interleave_gtf(text: str) -> str:
     return '\n'.join(out) + '\n'
 
 
+def real_ordered(anno):
+    """`Anno.ordered` on the real object: the transcripts dict is listed gene by gene, in the order
+    of every gene's `transcripts` list"""
+    want = [t for gm in anno.genes.values() for t in gm.transcripts if t in anno.transcripts]
+    return list(anno.transcripts.keys()) == want
+
+
+def write_order(m):
+    """the records of a transcript model in the order GtfIO.write emits them (the same list
+    expression as in `write`; object identity decides which five/three_utr records are shared)"""
+    records = m.cds + m.exon
+    records.sort()
+    records.extend(m.utr)
+    records.extend(x for x in m.five_utr + m.three_utr if not any(x is y for y in m.utr))
+    records.extend(m.start_codon + m.stop_codon)
+    return [m.transcript] + m.selenocysteine + records
+
+
+def real_stable(anno):
+    """`Anno.stable` on the real object, with the REAL key loop: deep copies of the records of
+    every transcript, in writing order, go through TranscriptAnnotationModel.add_record of a fresh
+    model; no attribute dict may change"""
+    import copy
+    from moPepGen.gtf.TranscriptAnnotationModel import TranscriptAnnotationModel
+    for m in anno.transcripts.values():
+        if m.transcript is None:
+            return False
+        fresh = TranscriptAnnotationModel()
+        for r in write_order(m):
+            c = copy.deepcopy(r)
+            before = rec_code(c)
+            fresh.add_record(c.type.lower(), c)
+            if rec_code(c) != before:
+                return False
+    return True
+
+
 def gtf_codec(ctx, a, L, S, case_id, viol):
     """tie of the GTF codec model: the real parser / writer and the Lean parser / writer run on
     the same texts and models; direct predicates: the theorem's conclusion on the real outputs"""
@@ -1123,12 +1167,34 @@ def gtf_codec(ctx, a, L, S, case_id, viol):
     if rt2_code != rt_code:
         viol('a second write->parse is not the identity (attribute dicts included)',
              {'first': rt_code[:3000], 'second': rt2_code[:3000]})
+    fix = False
     if rt2 is not None:
         buf3 = io.StringIO()
         GtfIO.write(buf3, rt2)
-        if buf3.getvalue() != buf2.getvalue():
+        fix = buf3.getvalue() == buf2.getvalue()
+        if not fix:
             viol('the text written after two round trips differs from the text written after one',
                  {'first': buf2.getvalue()[:3000], 'second': buf3.getvalue()[:3000]})
+    # closure (gtf_roundtrip_closed_partial / _closed_of_tx / _idempotent_partial), compared per input: on the model
+    # side the driver reloads the model of the loaded annotation and decides wf / ordered / stable on
+    # the result, runs a second round trip and compares the written texts; on the real side
+    # `ordered` and `stable` are evaluated on the real reloaded object (stable: with the real
+    # add_record), idem / fix / same come from the real second and third write; `wf` of the real
+    # reloaded object is decided by the driver in the second line (all four predicates on the
+    # SECOND real reload).
+    b = lambda x: '1' if x else '0'
+    S['gtfclosed'].append(('C11\tgtfclosed\t' + enc,
+                           f'wf=1,ordered={b(real_ordered(rt))},stable={b(real_stable(rt))},'
+                           f'idem={b(rt2_code == rt_code)},fix={b(fix)},same={b(buf2.getvalue() == text)}',
+                           obj))
+    if rt2 is not None:
+        S['gtfclosed'].append(('C11\tgtfwf\t' + '\t'.join(anno_items(rt2)),
+                               f'wf=1,ordered={b(real_ordered(rt2))},text=1,stable={b(real_stable(rt2))}',
+                               obj))
+    if not (real_ordered(rt) and real_stable(rt)):
+        if True:
+            viol('the annotation reloaded by GtfIO.write -> dump_gtf is not ordered / stable',
+                 {'ordered': real_ordered(rt), 'stable': real_stable(rt)})
     if buf2.getvalue() != text:
         # expected for a freshly loaded file: add_record copies the ids of the model onto every
         # later record, so the attribute dicts of the records depend on the record order of the file
@@ -1311,7 +1377,7 @@ STREAMS = ['g2gene', 'gene2g', 'geneseq', 'txidx', 'tx2g', 'gene2tx', 'tx2gene',
            'sec', 'txlen', 'exonic', 'upend', 'downstart', 'findexon', 'findintron', 'cache'] \
     + GTF_STREAMS
 OBSERVABLE = {'g2gene', 'gene2g', 'geneseq', 'txidx', 'tx2g', 'gene2tx', 'tx2gene', 'txseq',
-              'orf', 'sec', 'gtfrtn'}
+              'orf', 'sec', 'gtfrtn', 'gtfclosed'}
 WHAT = {
     'g2gene': 'coordinate_genomic_to_gene differs from the proved map',
     'gene2g': 'coordinate_gene_to_genomic differs from the proved map',
